@@ -149,14 +149,7 @@ def run(ctx):
     # D2b: item length taken from the raw item before the first write; row = [start, start + n]
     params = step_params(step)
     item = params[0]
-    lens = [n for n in own_nodes(step.node) if isinstance(n, ast.Call) and dotted(n.func) == 'len'
-            and n.args and norm(n.args[0]) == item]
-    ok = bool(lens) and all(must_precede(step, v, lens) for v in vcalls)
-    ctx.decide(ok, 'R-DOM', 'D2', step, lens[0] if lens else None, 'length-before-first-write',
-               f'{step.qualname}: len({item}) is evaluated before the first write (unsized items are rejected '
-               f'before anything is written)',
-               detail='the item length is not taken from the raw item before the values write: a 0-d / unsized '
-                      'item is written first and rejected afterwards, with no recovery')
+    length_before_first_write(ctx, step, vcalls, 'D2')
     for ic in icalls:
         row = ic.args[0] if ic.args else None
         if isinstance(row, ast.Name):
@@ -196,6 +189,21 @@ def run(ctx):
                 ctx.decide(ok, 'R-FLOW', 'D2', f, node, 'count-after-both-writes',
                            f'{f.qualname}: the length accumulators are increased only after the two-step append returned',
                            detail='an item is counted before both of its writes completed')
+
+
+def length_before_first_write(ctx, step, vcalls, clause):
+    """len(item) is evaluated on the raw item before the values write: a bare number / 0-d item is refused (TypeError
+    from len) before anything is written.  Shared with C04 (a refused append leaves the sequence unchanged)."""
+    params = step_params(step)
+    item = params[0]
+    lens = [n for n in own_nodes(step.node) if isinstance(n, ast.Call) and dotted(n.func) == 'len'
+            and n.args and norm(n.args[0]) == item]
+    ok = bool(lens) and all(must_precede(step, v, lens) for v in vcalls)
+    ctx.decide(ok, 'R-DOM', clause, step, lens[0] if lens else None, 'length-before-first-write',
+               f'{step.qualname}: len({item}) is evaluated before the first write (unsized items are rejected '
+               f'before anything is written)',
+               detail='the item length is not taken from the raw item before the values write: a 0-d / unsized '
+                      'item is written first and rejected afterwards, with no recovery')
 
 
 def values_before_index(ctx, step, vcalls, icalls, clause):
